@@ -3,10 +3,10 @@
 //! `c09 run    --scenarios f.ndjson --out trace.ndjson [--via state|engine]`
 //! `c09 random --seed S --steps N --out trace.ndjson [--via state|engine]`
 //!
-//! Items (world2):  bal0 / bal3  balance of asset 0 (btc@binance) / 3 (btc@kraken)
-//!                  l1_0 / l1_3  top of book of instrument 0 / 3
-//!                  lt_0 / lt_3  last traded price of instrument 0 / 3
-//!                  ord_c1 / ord_c2  open-order details of c1 (instrument 0) / c2 (instrument 3)
+//! Items (world2):  bal0 / bal4  balance of asset 0 (btc@binance) / 4 (btc@kraken)
+//!                  l1_0 / l1_4  top of book of instrument 0 / 4
+//!                  lt_0 / lt_4  last traded price of instrument 0 / 4
+//!                  ord_c1 / ord_c2  open-order details of c1 (instrument 0) / c2 (instrument 4)
 //! A message {item,t,v} becomes a real BalanceSnapshot / OrderSnapshot / full account Snapshot
 //! (two account items in one list) / market Trade / OrderBookL1 event, delivered through
 //! `EngineState::update_from_account|update_from_market` (via=state) or `Engine::process`
@@ -38,7 +38,7 @@ use rust_decimal::Decimal;
 use serde_json::{Value, json};
 use vh::{engine_kit::*, util::*, world2};
 
-const ITEMS: [&str; 8] = ["bal0", "bal3", "l1_0", "l1_3", "lt_0", "lt_3", "ord_c1", "ord_c2"];
+const ITEMS: [&str; 8] = ["bal0", "bal4", "l1_0", "l1_4", "lt_0", "lt_4", "ord_c1", "ord_c2"];
 const ORDER_QTY: i64 = 100; // reports are partial fills: the order stays tracked (lifecycle is C01's)
 
 fn item_target(item: &str) -> (String, usize) {
@@ -46,7 +46,7 @@ fn item_target(item: &str) -> (String, usize) {
     match k.as_str() {
         "bal" => ("bal".into(), n.parse().unwrap()),
         "l1" | "lt" => (k, n.parse().unwrap()),
-        "ord" => ("ord".into(), if n == "c1" { 0 } else { 3 }),
+        "ord" => ("ord".into(), if n == "c1" { 0 } else { 4 }),
         _ => usage("bad item"),
     }
 }
@@ -92,7 +92,7 @@ fn events_of(ms: &[Value]) -> Vec<(Vec<Value>, EngineEvent<DataKind>)> {
     let is_account = |m: &Value| matches!(item_target(s(m, "item")).0.as_str(), "bal" | "ord");
     let exchange_of = |m: &Value| {
         let (k, n) = item_target(s(m, "item"));
-        if k == "bal" { if n < 3 { 0 } else { 1 } } else { world2::EX_OF[n] }
+        if k == "bal" { if n < 4 { 0 } else { 1 } } else { world2::EX_OF[n] }
     };
     let account_event = |ex: usize, kind| EngineEvent::Account(AccountStreamEvent::Item(AccountEvent { exchange: ExchangeIndex(ex), kind }));
     if ms.len() > 1 && ms.iter().all(is_account) && ms.iter().all(|m| exchange_of(m) == exchange_of(&ms[0])) {
